@@ -4,6 +4,7 @@ import (
 	"bytes"
 	"fmt"
 	"os"
+	gostrings "strings"
 
 	"github.com/karino2/folang/pkg/dict"
 	"github.com/karino2/folang/pkg/frt"
@@ -50,6 +51,30 @@ var keywordMap = map[string]TokenType{
 	"elif":         New_TokenType_ELIF,
 	"not":          New_TokenType_NOT,
 	"fun":          New_TokenType_FUN,
+}
+
+// Go keywords which are not keywords of Folang. They are valid Folang identifiers,
+// but can not be emitted as they are. The identifier is renamed (xxx -> xxx_) at the tokenizer, so that it is consistent everywhere.
+var goKeywordMap = map[string]bool{
+	"break": true, "case": true, "chan": true, "const": true, "continue": true, "default": true, "defer": true,
+	"fallthrough": true, "for": true, "func": true, "go": true, "goto": true, "interface": true, "map": true,
+	"range": true, "return": true, "select": true, "struct": true, "switch": true, "var": true,
+}
+
+func goSafeName(name string) string {
+	if goKeywordMap[name] {
+		return name + "_"
+	}
+	return name
+}
+
+// for the variable of string interpolation like "{rec.field}".
+func goSafeDotted(name string) string {
+	segs := gostrings.Split(name, ".")
+	for i, s := range segs {
+		segs[i] = goSafeName(s)
+	}
+	return gostrings.Join(segs, ".")
 }
 
 func newToken(ttype TokenType, begin int, len int) Token {
@@ -265,6 +290,8 @@ func scanTokenAt(buf string, pos int) Token {
 		// check whether identifier is keyword
 		if tt, ok := keywordMap[cur.stringVal]; ok {
 			cur.ttype = tt
+		} else {
+			cur.stringVal = goSafeName(cur.stringVal)
 		}
 		return cur
 	case isNumber(b):
@@ -695,7 +722,7 @@ func ParseSInterP(buf string) frt.Tuple2[string, []string] {
 				}
 			}
 			vend := i
-			vars = append(vars, buf[vbeg:vend])
+			vars = append(vars, goSafeDotted(buf[vbeg:vend]))
 			res.WriteString("%s")
 		} else {
 			res.WriteByte(c)
